@@ -25,10 +25,15 @@ package arbitrator
 //     does not look at the annotation) - it becomes Running and stays in the waiting collection.
 //   * Running -> Succeeded (pod evicted, replacement pod with a NEW name) / Failed / Aborted; the
 //     terminal Update event reaches the handler immediately or one round late. Deletes likewise.
-//   * Pod names are never re-used; pods carry no evict annotation and are not DaemonSet / mirror /
-//     static / critical / PVC / local-storage pods, so the only non-retryable rules in play are the
-//     bare-pod rule, the expected-replicas rule and "pod is terminating" (all modelled as "may
-//     forbid").
+//   * Pods carry no evict annotation (it bypasses every filter by design). All documented
+//     non-retryable rules are in play and modelled as "may forbid" (an over-approximation that only
+//     excuses a Failed phase): bare pods, expected replicas, terminating, DaemonSet / mirror /
+//     static pods, critical priority and priority threshold, local storage, PVC, label selector,
+//     included / excluded namespaces, maximal eviction cost.
+//   * A pod name is re-used only the StatefulSet way: the pod is deleted and a successor with the
+//     same namespace/name and a NEW uid appears. A job whose podRef carries a uid belongs to the
+//     pod with that uid; by-name jobs belong to whatever pod has the name. Pod names may repeat
+//     across namespaces.
 //   * A pod may be inactive while its Ready condition still says True: a replica that is being
 //     deleted gracefully (deletionTimestamp set, containers still serving) and a finished pod
 //     (Succeeded/Failed, e.g. of a Job, or a pod whose kubelet no longer reports) whose Ready
@@ -169,9 +174,12 @@ type c16aCfg struct {
 }
 
 func c16aIntOrPct(r *kit.Rand, maxInt int) (*intstr.IntOrString, string) {
-	switch r.Weighted(30, 40, 30) {
+	switch r.Weighted(30, 38, 27, 5) {
 	case 0:
 		return nil, "unset"
+	case 3: // legal oddities: 0 and 0% count as 1, a negative number admits nothing, more than 100% is all replicas
+		v := kit.Pick(r, []intstr.IntOrString{intstr.FromInt32(0), intstr.FromInt32(-1), intstr.FromString("0%"), intstr.FromString("1%"), intstr.FromString("99%"), intstr.FromString("150%"), intstr.FromInt32(100)})
+		return &v, v.String()
 	case 1:
 		v := intstr.FromInt32(int32(r.Range(1, maxInt)))
 		return &v, v.String()
@@ -190,6 +198,9 @@ func c16aGenCfg(r *kit.Rand) *c16aCfg {
 			return nil, 0
 		case r.Pct(6):
 			return ptr.To[int32](0), 0
+		case r.Pct(8):
+			v := kit.Pick(r, []int{10, 50, 1000}) // never binds in these clusters
+			return ptr.To[int32](int32(v)), v
 		default:
 			v := r.Range(1, hi)
 			return ptr.To[int32](int32(v)), v
@@ -212,6 +223,23 @@ func c16aGenCfg(r *kit.Rand) *c16aCfg {
 	args.EvictAllBarePods = r.Pct(50)
 	args.EvictFailedBarePods = r.Pct(40)
 	cfg.evictAllBare, cfg.evictFailedBare = args.EvictAllBarePods, args.EvictFailedBarePods
+	// the other non-retryable rules, each off most of the time
+	args.EvictLocalStoragePods = r.Pct(60)
+	args.EvictSystemCriticalPods = r.Pct(25)
+	args.IgnorePvcPods = r.Pct(25)
+	if r.Pct(8) {
+		args.PriorityThreshold = &deschedulerconfig.PriorityThreshold{Value: ptr.To[int32](int32(kit.Pick(r, []int{1, 1000, 5000, 9500, 10000})))}
+	}
+	if r.Pct(7) {
+		args.LabelSelector = &metav1.LabelSelector{MatchLabels: map[string]string{"app": "a"}}
+	}
+	if r.Pct(7) {
+		if r.Bool() {
+			args.Namespaces = &deschedulerconfig.Namespaces{Include: []string{"ns0", "ns1"}}
+		} else {
+			args.Namespaces = &deschedulerconfig.Namespaces{Exclude: []string{kit.Pick(r, []string{"ns0", "ns1", "ns3"})}}
+		}
+	}
 	if r.Pct(50) {
 		args.DefaultJobMode = string(sev1alpha1.PodMigrationJobModeEvictionDirectly)
 	} else {
@@ -252,9 +280,10 @@ func c16aGenCfg(r *kit.Rand) *c16aCfg {
 		return strconv.Itoa(int(*v))
 	}
 	cfg.wlMigStr, cfg.wlUnavStr = ms, us
-	cfg.desc = fmt.Sprintf("global=%s perNode=%s perNS=%s wlMigrating=%s wlUnavailable=%s skipReplicasCheck=%v evictAllBare=%v evictFailedBare=%v gates=%v mode=%s",
+	cfg.desc = fmt.Sprintf("global=%s perNode=%s perNS=%s wlMigrating=%s wlUnavailable=%s skipReplicasCheck=%v evictAllBare=%v evictFailedBare=%v gates=%v mode=%s evictLocalStorage=%v evictCritical=%v ignorePVC=%v priorityThreshold=%v labelSelector=%v namespaces=%+v",
 		p(args.MaxMigratingGlobally), p(args.MaxMigratingPerNode), p(args.MaxMigratingPerNamespace), ms, us,
-		args.SkipCheckExpectedReplicas != nil && *args.SkipCheckExpectedReplicas, args.EvictAllBarePods, args.EvictFailedBarePods, args.SkipEvictionGates, args.DefaultJobMode)
+		args.SkipCheckExpectedReplicas != nil && *args.SkipCheckExpectedReplicas, args.EvictAllBarePods, args.EvictFailedBarePods, args.SkipEvictionGates, args.DefaultJobMode,
+		args.EvictLocalStoragePods, args.EvictSystemCriticalPods, args.IgnorePvcPods, args.PriorityThreshold != nil, args.LabelSelector != nil, args.Namespaces)
 	return cfg
 }
 
@@ -315,6 +344,9 @@ type c16aWorld struct {
 	wls      []*c16aWorkload
 	wlByUID  map[types.UID]*c16aWorkload
 	podSeq   int
+	podSeqNS map[string]int
+	uidSeq   int
+	sameName bool // pod names are numbered per namespace, so the same name exists in several namespaces
 	jobSeq   int
 	tick     int64
 	dupMode  bool
@@ -606,13 +638,29 @@ func (w *c16aWorld) must(err error, what string) {
 // --- pods
 
 func (w *c16aWorld) newPod(wl *c16aWorkload, ns, node string, state int) *corev1.Pod {
-	w.podSeq++
-	name := fmt.Sprintf("p%03d", w.podSeq)
-	prio := int32(kit.Pick(w.r, []int{0, 0, 0, 1000, 5000, 9500}))
+	return w.newPodNamed(wl, ns, node, state, "")
+}
+
+func (w *c16aWorld) newPodNamed(wl *c16aWorkload, ns, node string, state int, name string) *corev1.Pod {
+	if name == "" {
+		if w.sameName {
+			if w.podSeqNS == nil {
+				w.podSeqNS = map[string]int{}
+			}
+			w.podSeqNS[ns]++
+			name = fmt.Sprintf("p%03d", w.podSeqNS[ns])
+		} else {
+			w.podSeq++
+			name = fmt.Sprintf("p%03d", w.podSeq)
+		}
+	}
+	w.uidSeq++
+	prio := int32([]int{0, 1000, 5000, 9500, 10000, 2000000000, 2000001000}[w.r.Weighted(48, 14, 14, 12, 8, 2, 2)])
 	pod := &corev1.Pod{
 		ObjectMeta: metav1.ObjectMeta{
-			Namespace: ns, Name: name, UID: types.UID("pod-uid-" + name), CreationTimestamp: w.now(),
-			Labels: map[string]string{extension.LabelPodQoS: string(kit.Pick(w.r, []extension.QoSClass{extension.QoSNone, extension.QoSBE, extension.QoSLS, extension.QoSLSR}))},
+			Namespace: ns, Name: name, UID: types.UID(fmt.Sprintf("pod-uid-%s-%s-g%d", ns, name, w.uidSeq)), CreationTimestamp: w.now(),
+			Labels:      map[string]string{extension.LabelPodQoS: string(kit.Pick(w.r, []extension.QoSClass{extension.QoSNone, extension.QoSBE, extension.QoSLS, extension.QoSLSR}))},
+			Annotations: map[string]string{},
 		},
 		Spec: corev1.PodSpec{NodeName: node, Priority: &prio, SchedulerName: "koord-scheduler",
 			Containers: []corev1.Container{{Name: "c", Image: "i"}}},
@@ -620,6 +668,38 @@ func (w *c16aWorld) newPod(wl *c16aWorkload, ns, node string, state int) *corev1
 	}
 	if w.r.Pct(10) {
 		pod.Spec.SchedulerName = "default-scheduler"
+	}
+	r := w.r
+	if r.Pct(85) {
+		pod.Labels["app"] = kit.Pick(r, []string{"a", "a", "a", "a", "a", "b"})
+	}
+	if r.Pct(3) {
+		pod.Spec.Priority = nil
+	}
+	if r.Pct(8) {
+		pod.Spec.Volumes = append(pod.Spec.Volumes, corev1.Volume{Name: "scratch", VolumeSource: corev1.VolumeSource{EmptyDir: &corev1.EmptyDirVolumeSource{}}})
+	}
+	if r.Pct(3) {
+		pod.Spec.Volumes = append(pod.Spec.Volumes, corev1.Volume{Name: "host", VolumeSource: corev1.VolumeSource{HostPath: &corev1.HostPathVolumeSource{Path: "/x"}}})
+	}
+	if r.Pct(6) {
+		pod.Spec.Volumes = append(pod.Spec.Volumes, corev1.Volume{Name: "data", VolumeSource: corev1.VolumeSource{PersistentVolumeClaim: &corev1.PersistentVolumeClaimVolumeSource{ClaimName: "claim"}}})
+	}
+	if r.Pct(12) {
+		pod.Annotations[extension.AnnotationEvictionCost] = kit.Pick(r, []string{"0", "-5", "100", "2147483646", "2147483647", "2147483647", "bogus"})
+	}
+	if r.Pct(10) {
+		pod.Annotations["controller.kubernetes.io/pod-deletion-cost"] = kit.Pick(r, []string{"-100", "0", "7", "2147483647"})
+	}
+	if wl == nil && r.Pct(6) {
+		pod.Annotations[corev1.MirrorPodAnnotationKey] = "mirror"
+	}
+	if wl == nil && r.Pct(6) {
+		pod.Annotations["kubernetes.io/config.source"] = kit.Pick(r, []string{"file", "http", "api"})
+	}
+	if wl == nil && r.Pct(8) {
+		// owned, but by something that is not its controller
+		pod.OwnerReferences = []metav1.OwnerReference{{APIVersion: "v1", Kind: "ConfigMap", Name: "owner", UID: "other-owner"}}
 	}
 	if wl != nil {
 		pod.OwnerReferences = []metav1.OwnerReference{{APIVersion: "apps/v1", Kind: wl.kind, Name: wl.name, UID: wl.uid, Controller: ptr.To(true)}}
@@ -870,6 +950,15 @@ func c16aLive(j *sev1alpha1.PodMigrationJob) bool {
 
 // podOf resolves the job's pod among the existing pods (names are never re-used in this harness).
 func (s *c16aSnap) podOf(j *sev1alpha1.PodMigrationJob) *corev1.Pod {
+	p := s.podByName(j)
+	if p != nil && j.Spec.PodRef.UID != "" && j.Spec.PodRef.UID != p.UID {
+		return nil // the job's pod is gone; a successor carries its name
+	}
+	return p
+}
+
+// podByName is what a lookup by namespace/name finds (the arbitrator fetches the pod this way).
+func (s *c16aSnap) podByName(j *sev1alpha1.PodMigrationJob) *corev1.Pod {
 	if j.Spec.PodRef == nil {
 		return nil
 	}
@@ -932,6 +1021,50 @@ func c16aCount(s *c16aSnap) *c16aCounts {
 func (w *c16aWorld) mayBeForbidden(p *corev1.Pod) bool {
 	if p.DeletionTimestamp != nil {
 		return true // "pod is terminating"
+	}
+	a := w.cfg.args
+	if _, ok := p.Annotations[corev1.MirrorPodAnnotationKey]; ok {
+		return true
+	}
+	if src, ok := p.Annotations["kubernetes.io/config.source"]; ok && src != "api" {
+		return true
+	}
+	if p.Annotations[extension.AnnotationEvictionCost] == "2147483647" {
+		return true
+	}
+	for _, o := range p.OwnerReferences {
+		if o.Kind == "DaemonSet" {
+			return true
+		}
+	}
+	if !a.EvictSystemCriticalPods && p.Spec.Priority != nil {
+		if *p.Spec.Priority >= 2000000000 || a.PriorityThreshold != nil && *p.Spec.Priority >= *a.PriorityThreshold.Value {
+			return true
+		}
+	}
+	for _, v := range p.Spec.Volumes {
+		if !a.EvictLocalStoragePods && (v.EmptyDir != nil || v.HostPath != nil) {
+			return true
+		}
+		if a.IgnorePvcPods && v.PersistentVolumeClaim != nil {
+			return true
+		}
+	}
+	if a.LabelSelector != nil && p.Labels["app"] != a.LabelSelector.MatchLabels["app"] {
+		return true
+	}
+	if a.Namespaces != nil {
+		in := func(xs []string) bool {
+			for _, x := range xs {
+				if x == p.Namespace {
+					return true
+				}
+			}
+			return false
+		}
+		if len(a.Namespaces.Include) > 0 && !in(a.Namespaces.Include) || in(a.Namespaces.Exclude) {
+			return true
+		}
 	}
 	if len(p.OwnerReferences) == 0 {
 		if w.cfg.evictAllBare {
@@ -1075,6 +1208,12 @@ func (w *c16aWorld) checkRound(round int, before, after *c16aSnap, waitingBefore
 		dim("node", n, cfg.perNode, cb.node[n], ca.node[n])
 	}
 	for _, wl := range w.wls {
+		if wl.replicas == 0 {
+			// "at least one" and "never more than the replicas" contradict each other here; whatever the
+			// arbitrator does with such a workload breaks no budget the statement names
+			c.Count("workload_rounds_with_zero_expected_replicas", 1)
+			continue
+		}
 		if cfg.wlMigOn {
 			dim("workload-migrating", wl.name, c16aWorkloadLimit(cfg.args.MaxMigratingPerWorkload, wl.replicas), cb.wl[wl.uid], ca.wl[wl.uid])
 		}
@@ -1141,6 +1280,11 @@ func (w *c16aWorld) checkRound(round int, before, after *c16aSnap, waitingBefore
 		}
 		pod := before.podOf(jb)
 		forb := pod != nil && w.mayBeForbidden(pod)
+		if named := before.podByName(jb); named != nil && pod == nil {
+			// the arbitrator looks the pod up by name and judges the successor of the job's pod
+			forb = w.mayBeForbidden(named)
+			c.Count("waiting_jobs_whose_pod_was_replaced_under_the_same_name", 1)
+		}
 		if pod != nil && !forb {
 			// another live job for the same pod: whether the second one has to wait or is failed is
 			// not what check (3) is about (check (2) says it must not be admitted)
@@ -1340,24 +1484,29 @@ func (w *c16aWorld) checkFilter(round int, s *c16aSnap) {
 
 func (w *c16aWorld) genCluster() {
 	r, c := w.r, w.c
-	for i, n := 0, r.Range(2, 4); i < n; i++ {
+	for i, n := 0, kit.Pick(r, []int{1, 2, 2, 2, 3, 3, 3, 3, 4, 4, 4, 6}); i < n; i++ {
 		w.nodes = append(w.nodes, fmt.Sprintf("n%d", i))
 	}
-	for i, n := 0, r.Range(1, 3); i < n; i++ {
+	for i, n := 0, kit.Pick(r, []int{1, 1, 2, 2, 2, 3, 3, 4}); i < n; i++ {
 		w.nss = append(w.nss, fmt.Sprintf("ns%d", i))
 	}
+	w.sameName = r.Pct(40)
 	// node weights: some nodes are crowded so that per-node limits bind
 	nodeW := make([]int, len(w.nodes))
 	for i := range nodeW {
 		nodeW[i] = kit.Pick(r, []int{1, 1, 3, 6})
 	}
 	pickNode := func() string { return w.nodes[r.Weighted(nodeW...)] }
-	for i, n := 0, r.Range(1, 4); i < n; i++ {
+	podBudget := 48 // keeps a case affordable: the per-node filter is quadratic in pods
+	for i, n := 0, kit.Pick(r, []int{0, 1, 1, 2, 2, 2, 3, 3, 4, 5}); i < n; i++ {
 		wl := &c16aWorkload{
 			uid: types.UID(fmt.Sprintf("wl-uid-%d", i)), name: fmt.Sprintf("wl%d", i),
-			kind:     kit.Pick(r, []string{"ReplicaSet", "ReplicaSet", "StatefulSet", JobKind}),
+			kind:     []string{"ReplicaSet", "StatefulSet", JobKind, "CloneSet", "DaemonSet"}[r.Weighted(40, 25, 20, 11, 4)],
 			ns:       kit.Pick(r, w.nss),
-			replicas: kit.Pick(r, []int{1, 2, 2, 3, 3, 4, 4, 5, 5, 6, 7, 8, 10, 11, 12}),
+			replicas: kit.Pick(r, []int{0, 1, 1, 2, 2, 2, 3, 3, 3, 4, 4, 4, 5, 5, 5, 6, 6, 7, 8, 8, 10, 10, 11, 12, 12, 15, 20, 30}),
+		}
+		if wl.replicas > podBudget {
+			wl.replicas = kit.Pick(r, []int{1, 2, 3})
 		}
 		w.wls = append(w.wls, wl)
 		w.wlByUID[wl.uid] = wl
@@ -1368,6 +1517,11 @@ func (w *c16aWorld) genCluster() {
 		case 2:
 			npods = wl.replicas + r.Range(1, 2)
 		}
+		if wl.replicas == 0 {
+			// a workload the controller finder does not know / scaled to zero while pods are still there
+			npods = r.Range(1, 3)
+		}
+		podBudget -= npods
 		c.Op("workload %s/%s kind=%s replicas=%d pods=%d", wl.ns, wl.name, wl.kind, wl.replicas, npods)
 		var mine []*corev1.Pod
 		for p := 0; p < npods; p++ {
@@ -1443,7 +1597,7 @@ func (w *c16aWorld) genSnapshotJobs(restart bool) {
 	r, c := w.r, w.c
 	s := w.snapshot()
 	perm := r.Perm(len(s.podKeys))
-	nExisting := r.Range(0, c16aMin(len(perm), 6))
+	nExisting := r.Range(0, c16aMin(len(perm), kit.Pick(r, []int{6, 6, 6, 8})))
 	var created []*sev1alpha1.PodMigrationJob
 	for i := 0; i < nExisting; i++ {
 		p := s.pods[s.podKeys[perm[i]]]
@@ -1476,7 +1630,13 @@ func (w *c16aWorld) genSnapshotJobs(restart bool) {
 		}
 		c.Op("restart flavour: Create events delivered for the %d existing jobs", len(created))
 	}
-	w.addWaitingJobs(r.Range(2, 12))
+	switch r.Weighted(6, 84, 10) {
+	case 0: // nothing is waiting at start-up
+	case 1:
+		w.addWaitingJobs(r.Range(1, 12))
+	default:
+		w.addWaitingJobs(r.Range(13, 20))
+	}
 }
 
 // addWaitingJobs creates n new jobs (see the causal rules at the top) and delivers their Create events.
@@ -1589,7 +1749,7 @@ func (w *c16aWorld) envStep() {
 	}
 	for i, n := 0, r.Range(2, 7); i < n; i++ {
 		s = w.snapshot()
-		switch r.Weighted(22, 8, 10, 22, 14, 8, 8, 8, 9, 6, 5) {
+		switch r.Weighted(22, 8, 10, 22, 14, 8, 8, 8, 9, 6, 5, 5) {
 		case 0: // a running job completes
 			var running []*sev1alpha1.PodMigrationJob
 			for _, j := range s.jobs {
@@ -1653,9 +1813,15 @@ func (w *c16aWorld) envStep() {
 			c.Op("env: pod now %s", c16aPodStr(p))
 			c.Count("env_pod_state", 1)
 		case 5: // workload scaled
+			if len(w.wls) == 0 {
+				continue
+			}
 			wl := kit.Pick(r, w.wls)
 			old := wl.replicas
-			wl.replicas = c16aMax(1, c16aMin(12, wl.replicas+kit.Pick(r, []int{-3, -2, -1, -1, 1, 1, 2, 3})))
+			if old == 0 {
+				continue
+			}
+			wl.replicas = c16aMax(1, c16aMin(30, wl.replicas+kit.Pick(r, []int{-3, -2, -1, -1, 1, 1, 2, 3})))
 			c.Op("env: workload %s scaled %d -> %d", wl.name, old, wl.replicas)
 			if wl.replicas > old && r.Pct(70) {
 				for k := old; k < wl.replicas; k++ {
@@ -1748,6 +1914,24 @@ func (w *c16aWorld) envStep() {
 			c.Op("env: terminating pod %s/%s is gone", p.Namespace, p.Name)
 			w.deletePod(p, "grace period over")
 			c.Count("env_pod_termination_finished", 1)
+		case 11: // StatefulSet-like re-creation: the pod is deleted and a successor with the same name and a new uid appears
+			var cand []*corev1.Pod
+			for _, k := range s.podKeys {
+				p := s.pods[k]
+				if o := metav1.GetControllerOf(p); o != nil && (o.Kind == "StatefulSet" || o.Kind == "CloneSet") && p.DeletionTimestamp == nil {
+					cand = append(cand, p)
+				}
+			}
+			if len(cand) == 0 {
+				continue
+			}
+			p := kit.Pick(r, cand)
+			wl := w.wlByUID[metav1.GetControllerOf(p).UID]
+			c.Op("env: pod %s is re-created under the same name", c16aPodStr(p))
+			w.deletePod(p, "re-created")
+			np := w.newPodNamed(wl, p.Namespace, kit.Pick(r, w.nodes), r.Weighted(45, 30, 20, 0, 5), p.Name)
+			c.Op("  successor %s uid=%s", c16aPodStr(np), np.UID)
+			c.Count("env_pod_recreated_same_name", 1)
 		case 7: // a bare pod appears / a pod disappears
 			if r.Bool() || len(s.podKeys) < 3 {
 				np := w.newPod(nil, kit.Pick(r, w.nss), kit.Pick(r, w.nodes), w.genPodState())
@@ -1803,8 +1987,8 @@ func TestVerifC16ArbitrationRounds(t *testing.T) {
 	if err := c16aFixtures(); err != nil {
 		t.Fatalf("fixtures: %v", err)
 	}
-	kit.Run(t, kit.Config{Property: "C16", Unit: "rounds", Quick: 960, Thorough: 24000,
-		Rule: "generated cluster (2-4 nodes with skewed pod placement, 1-3 namespaces, 1-4 workloads of 1-12 replicas with per-pod readiness/phase incl. terminating or finished pods whose Ready condition is still True (placed so that workloads sit one below / at their allowed unavailability), bare pods), start-up snapshot of Running/Succeeded/Failed/Aborted jobs (restart flavour: all re-delivered as Create events; warm flavour: not), 2-12 waiting jobs created by descheduler(with/without Filter)/user(with/without uid), limits global/node/namespace unset|0|1-6, per-workload migrating/unavailable unset|int|percent, eviction gates, injected API write failures, read lag in 35% of the cases (arbitrator reads from an informer-cache copy that does not see its own writes of the round, or only after 1-3 of them; foreign writes are always visible at round start); 2-5 real doOnceArbitrate() rounds with reconciler/user/workload activity in between; oracle on the API objects after every round; distinct = (which limits are on, workload limit kinds, flavour, admitted/held-for-headroom/failed classes of the round, set of dimensions that reached their limit in the round, some dimension exceeded before); non-trivial = a case with a round that both admitted a job and held back another live job (existing pod) because some budget had no room"},
+	kit.Run(t, kit.Config{Property: "C16", Unit: "rounds", Quick: 1440, Thorough: 30000,
+		Rule: "generated cluster (1-6 nodes with skewed pod placement, 1-4 namespaces with pod names possibly repeating across them, 0-5 workloads (ReplicaSet/StatefulSet/Job/CloneSet/DaemonSet) of 0-30 replicas with per-pod readiness/phase incl. terminating or finished pods whose Ready condition is still True (placed so that workloads sit one below / at their allowed unavailability), bare pods), start-up snapshot of Running/Succeeded/Failed/Aborted jobs (restart flavour: all re-delivered as Create events; warm flavour: not), 0-20 waiting jobs created by descheduler(with/without Filter)/user(with/without uid), limits global/node/namespace unset|0|1-6|large, per-workload migrating/unavailable unset|int|percent|0|negative|>100%, eviction gates, all non-retryable rule arguments (local storage, PVC, critical priority, priority threshold, label selector, namespaces) with pods that trip them, injected API write failures, read lag in 35% of the cases (arbitrator reads from an informer-cache copy that does not see its own writes of the round, or only after 1-3 of them; foreign writes are always visible at round start); 1-8 real doOnceArbitrate() rounds with reconciler/user/workload activity in between; oracle on the API objects after every round; distinct = (which limits are on, workload limit kinds, flavour, admitted/held-for-headroom/failed classes of the round, set of dimensions that reached their limit in the round, some dimension exceeded before); non-trivial = a case with a round that both admitted a job and held back another live job (existing pod) because some budget had no room"},
 		func(c *kit.Case) {
 			r := c.R
 			cfg := c16aGenCfg(r)
@@ -1821,7 +2005,7 @@ func TestVerifC16ArbitrationRounds(t *testing.T) {
 			c.Op("config: %s; duplicates=%v apiFailPct=%d flavour-restart=%v read-lag=%v", cfg.desc, w.dupMode, w.failPct, restart, lag)
 			w.genCluster()
 			w.genSnapshotJobs(restart)
-			rounds := r.Range(2, 5)
+			rounds := kit.Pick(r, []int{1, 2, 2, 3, 3, 4, 4, 5, 5, 8})
 			nontrivial := false
 			for round := 1; round <= rounds; round++ {
 				before := w.snapshot()
